@@ -32,7 +32,7 @@ LARGE = {'quick': dict(n1=8, n2=13, n2min=10, n3=5, lmax=6),
 
 
 def budget(tier):
-    return 10000 if tier == 'quick' else 100000
+    return 10000 if tier == 'quick' else 300000
 
 
 @st.composite
